@@ -2772,3 +2772,7 @@ mod tests {
         assert_eq!(new_col_max, exp_col_max);
     }
 }
+
+#[cfg(kani)]
+#[path = "/verif/kani/parquet/file/writer.rs"]
+mod verif_kani;
